@@ -182,6 +182,8 @@ func (server *SugarDB) handleCommand(ctx context.Context, message []byte, conn *
 	if !server.isInCluster() || !synchronize {
 		res, err := handler(server.getHandlerFuncParams(ctx, cmd, conn))
 		if err != nil {
+			// The command failed: it is no longer mutating the state.
+			server.stateMutationInProgress.Store(false)
 			return nil, err
 		}
 
